@@ -4,9 +4,10 @@
        made of non-empty ASCII-alphanumeric runs joined by single dots;
      - the conversion to PEP 440 is total: it reaches no panic state, whatever the schema and variables;
      - what zerv's own SemVer parser accepts it prints back unchanged.
-   The full statement "the printed string is in the grammar" is decided on every run for every emitted string by the
-   extracted grammar oracles (the source regexes proved equal to the specification regexes, C08 / C09). *)
-From ZV Require Import Str Sanitize SanitizeSpec SanitizeProofs Zerv Render Convert SemVer SemVerProofs NoPanicProofs ConvertProofs.
+   and, below, THE GRAMMAR THEOREMS: the printed string is in the grammar, for every object and at the level of the commands. *)
+From ZV Require Import Str Sanitize SanitizeSpec SanitizeProofs Zerv Render Convert SemVer Pep440 SemVerProofs NoPanicProofs ConvertProofs Bump Cli Flow
+                       RegexSrc PepWfProofs GrammarProofs OutputGrammar.
+From RelationAlgebra Require regex.
 
 (* any value a component contributes is the image of a sanitiser *)
 Theorem c01_values_are_sanitised : forall c vs z x, comp_value c vs z = Some x -> exists y, x = sanitize z y.
@@ -29,6 +30,42 @@ Proof. exact zerv_of_semver_total. Qed.
 Theorem c01_reparse_stable : forall s v, semver_parse s = Some v -> semver_print v = strip_v s.
 Proof. exact parse_lossless. Qed.
 
+(* THE GRAMMAR THEOREMS.  For every Zerv object the SemVer rendering is in the SemVer 2.0.0 BNF language and the PEP 440 rendering is in the
+   Appendix B language (both regexes regenerated / transcribed in Gen/RegexSrc.v; the BNF one is proved equal to the regex in the source).
+   Route: C16 contract -> identifiers / local segments well-formed -> printed string in the language of printed strings (structural
+   membership) -> that language is included in the grammar (decided by ka on every run). *)
+Theorem c01_semver_in_grammar : forall z, regex.lang semver_spec (map semver_atom_of (semver_print (semver_of_zerv z))).
+Proof. exact semver_output_in_bnf. Qed.
+
+Theorem c01_pep440_in_grammar : forall z p, pep_of_zerv z = Some p -> regex.lang pep440_spec (map pep440_atom_of (pep_print p)).
+Proof. exact pep440_output_in_appendix_b. Qed.
+
+(* the PEP 440 value is printable in normal form: non-empty release, every label carries its number, local segments are numbers or
+   non-empty ASCII-alphanumeric strings *)
+Theorem c01_pep440_normal_shape : forall z p, pep_of_zerv z = Some p -> pep_wf p.
+Proof. exact pep_of_zerv_wf. Qed.
+
+(* ... and at the level of the commands, for all arguments, stdin objects and clock values: stdout (without the newline) is the prefix
+   followed by a member of the grammar *)
+Theorem c01_version_semver : forall a stdin now t, g_output_format a = OutSemver -> version_output a stdin now = OOk t ->
+  exists v, t = prefix_of a ++ v /\ regex.lang semver_spec (map semver_atom_of v).
+Proof. exact version_semver_in_grammar. Qed.
+Theorem c01_version_pep440 : forall a stdin now t, g_output_format a = OutPep440 -> version_output a stdin now = OOk t ->
+  exists v, t = prefix_of a ++ v /\ regex.lang pep440_spec (map pep440_atom_of v).
+Proof. exact version_pep440_in_grammar. Qed.
+Theorem c01_flow_semver : forall f stdin now t, g_output_format (f_base f) = OutSemver -> flow_output f stdin now = OOk t ->
+  exists v, t = prefix_of (f_base f) ++ v /\ regex.lang semver_spec (map semver_atom_of v).
+Proof. exact flow_semver_in_grammar. Qed.
+Theorem c01_flow_pep440 : forall f stdin now t, g_output_format (f_base f) = OutPep440 -> flow_output f stdin now = OOk t ->
+  exists v, t = prefix_of (f_base f) ++ v /\ regex.lang pep440_spec (map pep440_atom_of v).
+Proof. exact flow_pep440_in_grammar. Qed.
+Theorem c01_render_semver : forall inf pre s t, render_cmd inf FSemver pre s = OOk t ->
+  exists v, t = pre ++ v /\ regex.lang semver_spec (map semver_atom_of v).
+Proof. exact render_semver_in_grammar. Qed.
+Theorem c01_render_pep440 : forall inf pre s t, render_cmd inf FPep440 pre s = OOk t ->
+  exists v, t = pre ++ v /\ regex.lang pep440_spec (map pep440_atom_of v).
+Proof. exact render_pep440_in_grammar. Qed.
+
 Check c01_pep_conversion_total : forall z, pep_of_zerv z <> None.
 
 Print Assumptions c01_values_are_sanitised.
@@ -36,3 +73,12 @@ Print Assumptions c01_sanitised_contract.
 Print Assumptions c01_pep_conversion_total.
 Print Assumptions c01_semver_to_zerv_total.
 Print Assumptions c01_reparse_stable.
+Print Assumptions c01_semver_in_grammar.
+Print Assumptions c01_pep440_in_grammar.
+Print Assumptions c01_pep440_normal_shape.
+Print Assumptions c01_version_semver.
+Print Assumptions c01_version_pep440.
+Print Assumptions c01_flow_semver.
+Print Assumptions c01_flow_pep440.
+Print Assumptions c01_render_semver.
+Print Assumptions c01_render_pep440.
